@@ -32,7 +32,7 @@ S(seq) == {seq[i] : i \in 1..Len(seq)}
 Max2(a, b) == IF a > b THEN a ELSE b
 Name == [Ok |-> "Ok", TooManyEntries |-> "Err:TooManyEntries", EntryTooBig |-> "Err:EntryTooBig",
          AccessDenied |-> "Err:AccessDenied", InvalidSignature |-> "Err:InvalidSignature",
-         DifferentBaseRegister |-> "Err:DifferentBaseRegister"]
+         DifferentBaseRegister |-> "Err:DifferentBaseRegister", RegisterAddrMismatch |-> "Err:RegisterAddrMismatch"]
 Names(set) == {Name[x] : x \in set}
 
 Events == {"Reset", "AddOp", "Merge", "VerifiedMerge", "VerifiedMergeCrafted", "Verify", "Read", "Law"}
